@@ -429,3 +429,22 @@ theorem tie_BidsByPrice_sorted_id (bids out : List Bid) (keys : List Dec) (hk : 
   exact levels_sorted_id _ out h1 (fun b hb => (h2 _).2 (List.mem_map.2 ⟨b, hb, rfl⟩)) hs
 
 end Fundraising
+
+/-! non-vacuity: a book of four bids at two prices, as `SortBids` might return it NOT sorted by
+    price (ids 2 1 4 3), and the price map yielding its keys in ascending order -/
+namespace Fundraising
+open Fundraising.Gen Fundraising.Go
+
+private def exBid (id : Nat) (price : Int) : Bid :=
+  { auction := 0, id := id, bidder := 1, type := .many, price := price, denom := 0, amt := 1, matched := false }
+private def exOut : List Bid := [exBid 2 5, exBid 1 7, exBid 4 5, exBid 3 7]
+
+example : KeysOf exOut [5, 7] := by
+  refine ⟨by decide, ?_⟩
+  intro q; simp [exOut, exBid]; constructor
+  · rintro (h | h) <;> simp [h]
+  · rintro (h | h | h | h) <;> simp [h]
+example : (Gen.BidsByPrice [] exOut [5, 7]).1 = [7, 5] := by decide
+example : (arrangementOf (Gen.BidsByPrice [] exOut [5, 7])).map (·.id) = [1, 3, 2, 4] := by decide
+
+end Fundraising
